@@ -344,6 +344,8 @@ def build(prop, tier="quick"):
     kb = misc
     emit_to_operator(kb, contracts, prop, opnames)
     route_facts(kb, hdr)
+    visit_fact(kb, hdr)
+    rethrow_fact(kb)
     types_fact(kb)
     # --- static fact: the lhs pointer handed to go()
     line = "auto *lhs = t_lhs.is_return_value() ? nullptr : static_cast<std::decay_t<decltype(c_lhs)> *>(t_lhs.get_ptr());"
@@ -524,3 +526,32 @@ def types_fact(kb):
     r = subprocess.run([exe, "types"], stdout=subprocess.PIPE, stderr=subprocess.PIPE)
     kb.static_facts.append(("get_common_type_of_every_builtin_arithmetic_type (native, exhaustive over 25 types, not a proof)",
                             r.returncode == 0, (r.stdout.decode() + r.stderr.decode()).strip()[-300:]))
+
+
+VISIT_MAP = {"t_int32": "std::int32_t", "t_uint8": "std::uint8_t", "t_int8": "std::int8_t", "t_uint16": "std::uint16_t",
+             "t_int16": "std::int16_t", "t_uint32": "std::uint32_t", "t_uint64": "std::uint64_t", "t_int64": "std::int64_t",
+             "t_double": "double", "t_float": "float", "t_long_double": "long double"}
+
+
+def visit_fact(kb, hdr):
+    """supporting static fact: Boxed_Number::visit reads a boxed number through a pointer to the
+    fixed-width type named by its common type (finite table, 11 cases)."""
+    sl = hdr.slice_function("inline static auto visit(const Boxed_Value &bv, Callable &&callable)")
+    got = dict(re.findall(r"case Common_Types::(t_\w+):\s*return callable\(\*static_cast<const ([\w: ]+?) \*>\(bv\.get_const_ptr\(\)\)\);", sl.body))
+    bad = ["%s read as %s" % (k, got.get(k)) for k in VISIT_MAP if got.get(k) != VISIT_MAP[k]]
+    kb.slices.append(("Boxed_Number::visit", sl.where(), sl.sha))
+    kb.static_facts.append(("visit_reads_each_common_type_through_its_own_fixed_width_type", not bad, "; ".join(bad) or "11 cases"))
+
+
+def rethrow_fact(kb):
+    """supporting static fact: both runtime operator nodes let arithmetic_error through unchanged
+    (route agreement on the error class)."""
+    ev = chai2c.Header("include/chaiscript/language/chaiscript_eval.hpp")
+    bad = []
+    for st in ("struct Binary_Operator_AST_Node", "struct Fold_Right_Binary_Operator_AST_Node"):
+        sl = ev.slice_block(st)
+        body = " ".join(sl.body.split())
+        if not re.search(r"catch \(const chaiscript::exception::arithmetic_error &\) \{ throw; \}", body):
+            bad.append(st + ": no `catch (const arithmetic_error &) { throw; }` around Boxed_Number::do_oper")
+        kb.slices.append((st, sl.where(), sl.sha))
+    kb.static_facts.append(("operator_nodes_rethrow_arithmetic_error_unchanged", not bad, "; ".join(bad) or "2 nodes"))
